@@ -201,7 +201,29 @@ def _outcomes(paths, guards, loops, withs, trail):
             yield p.out, Ctx(g, loops, w, p, len(p.events), tr)
 
 
+def _known_functions() -> frozenset:
+    import json
+    import pathlib
+
+    p = pathlib.Path(__file__).with_name("known_functions.json")
+    try:
+        return frozenset(json.loads(p.read_text()))
+    except Exception:  # noqa: BLE001
+        return frozenset()
+
+
+KNOWN_FUNCTIONS = _known_functions()
+
+
 class Summariser:
+    """Builds and caches path summaries.
+
+    Helper functions that the rule set does not know by name (anything not in
+    ``known_functions.json``, i.e. helpers introduced by a refactoring) are *transparent*: calls to
+    them are inlined into the caller's summary, so that "extract helper" leaves the normal form of
+    the caller unchanged.
+    """
+
     def __init__(self, model: Model) -> None:
         self.model = model
         self.cache: dict[str, Summary] = {}
@@ -211,17 +233,30 @@ class Summariser:
             fn = self.model.function(fn)
         s = self.cache.get(fn.qualname)
         if s is None:
-            s = _Builder(self.model, fn).run()
+            s = _Builder(self.model, fn, self).run()
             self.cache[fn.qualname] = s
         return s
 
+    def inlinable(self, fn: FunctionInfo | None) -> bool:
+        if fn is None or fn.qualname in KNOWN_FUNCTIONS:
+            return False
+        if fn.is_property or fn.is_classmethod:
+            return False
+        for n in ast.walk(fn.node):
+            if isinstance(n, (ast.Yield, ast.YieldFrom, ast.Await)):
+                return False
+        return True
+
 
 class _Builder:
-    def __init__(self, model: Model, fn: FunctionInfo) -> None:
+    def __init__(self, model: Model, fn: FunctionInfo, owner: "Summariser | None" = None) -> None:
         self.model = model
         self.fn = fn
+        self.owner = owner
         self.low = Lowering(model, fn, fn.module)
         self.truncated = False
+        self.inline_stack: list[str] = []
+        self.extra_syn: dict[int, list] = {}
         self.cov: tuple = ()  # stack of handler-class tuples of the enclosing try bodies
 
     def E(self, *a, **k) -> Ev:
@@ -240,7 +275,136 @@ class _Builder:
         paths = self.block(body, [start])
         summ = Summary(self.fn, paths, self.low, self.truncated)
         summ.syn = self.syntactic_terms(body)
+        for line, terms in self.extra_syn.items():
+            summ.syn[line] = tuple(summ.syn.get(line, ())) + tuple(terms)
         return summ
+
+    # ------------------------------------------------------------------ helper inlining
+    def resolve_callee(self, t) -> FunctionInfo | None:
+        """The package function a call term invokes, if it can be resolved."""
+        if op(t) != "call":
+            return None
+        f = t[1]
+        m = self.model
+        if op(f) in ("func", "closure"):
+            return m.functions.get(f[1])
+        if op(f) == "attr":
+            base, name = f[1], f[2]
+            fn = self.fn
+            if fn.cls is not None and fn.self_name and base == ("param", fn.self_name):
+                return m.find_method(fn.cls, name)
+            if fn.cls is not None and fn.is_classmethod and base == ("param", "cls"):
+                return m.find_method(fn.cls, name)
+            if op(base) == "cls" and base[1] in m.classes:
+                return m.find_method(m.classes[base[1]], name)
+        return None
+
+    def _bind(self, callee: FunctionInfo, t) -> dict | None:
+        params = list(callee.params)
+        out: dict = {}
+        if callee.cls is not None and not callee.is_staticmethod and params:
+            out[params[0].name] = t[1][1] if op(t[1]) == "attr" else ("unk", "recv")
+            params = params[1:]
+        pos = [q for q in params if q.kind == "pos"]
+        args = list(t[2])
+        if any(op(a) == "star" for a in args) or any(k is None for k, _ in t[3]):
+            return None
+        if len(args) > len(pos):
+            return None
+        for q, a in zip(pos, args):
+            out[q.name] = a
+        for k, v in t[3]:
+            if callee.param(k) is None:
+                return None
+            out[k] = v
+        for q in params:
+            if q.name in out:
+                continue
+            if q.kind in ("vararg", "kwarg"):
+                return None
+            if q.default is None:
+                return None
+            out[q.name] = self.low.expr(q.default, {})
+        return out
+
+    def inline_call(self, t, p: Path, line: int):
+        """Execute an inlinable helper in place.  Returns list of (path, value term) or None."""
+        if self.owner is None or len(self.inline_stack) >= 3:
+            return None
+        callee = self.resolve_callee(t)
+        if callee is None or not self.owner.inlinable(callee) or callee.qualname in self.inline_stack:
+            return None
+        bound = self._bind(callee, t)
+        if bound is None:
+            return None
+        body = list(callee.node.body)
+        if body and isinstance(body[0], ast.Expr) and isinstance(body[0].value, ast.Constant) and isinstance(body[0].value.value, str):
+            body = body[1:]
+        saved_env = p.env
+        saved = (self.fn, self.low.fn, self.low.mod, self.low.local_imports)
+        env = dict(saved_env) if callee.parent is not None else {}
+        env.update(bound)
+        p.env = env
+        self.inline_stack.append(callee.qualname)
+        self.fn = callee
+        self.low.fn, self.low.mod = callee, callee.module
+        self.low.local_imports = dict(self.low.local_imports) if callee.module is saved[2] else {}
+        try:
+            out_paths = self.block(body, [p])
+            # syntactic terms of the helper body, with its parameters replaced by the arguments
+            sub = _Builder(self.model, callee, self.owner)
+            for ln, terms in sub.syntactic_terms(body).items():
+                from .terms import substitute
+
+                mp = {("param", k): v for k, v in bound.items()}
+                self.extra_syn.setdefault(ln, []).extend(substitute(x, mp) for x in terms)
+        finally:
+            self.inline_stack.pop()
+            self.fn, self.low.fn, self.low.mod, self.low.local_imports = saved
+        res = []
+        for q in out_paths:
+            val = NONE
+            if q.out is not None and q.out[0] == "return":
+                val = q.out[1]
+                q.out = None
+            elif q.out is not None and q.out[0] == "raise":
+                q.env = dict(saved_env)
+                res.append((q, None))
+                continue
+            elif q.out is not None:
+                q.out = None
+            q.env = dict(saved_env)
+            res.append((q, val))
+        return res
+
+    def inline_terms(self, t, depth: int = 0):
+        """Term-level inlining of straight-line unknown helpers inside larger expressions."""
+        if self.owner is None or not isinstance(t, tuple) or depth > 3:
+            return t
+        t = tuple(self.inline_terms(x, depth) if isinstance(x, tuple) else x for x in t)
+        if op(t) == "call" and op(t[1]) == "lambda" and len(t[1][1]) == len(t[2]) and not t[3] and not any(op(a) == "star" for a in t[2]):
+            from .terms import substitute
+
+            return self.inline_terms(substitute(t[1][2], {("lv", n): a for n, a in zip(t[1][1], t[2])}), depth + 1)
+        if op(t) == "call" and op(t[1]) == "bound" and not any(op(a) == "star" for a in t[2]):
+            kw = dict(t[1][3])
+            kw.update(dict(t[3]))
+            return self.inline_terms(("call", t[1][1], tuple(t[1][2]) + tuple(t[2]), tuple(sorted(kw.items(), key=lambda kv: (kv[0] is None, kv[0] or "")))), depth + 1)
+        if op(t) == "call":
+            callee = self.resolve_callee(t)
+            if callee is not None and self.owner.inlinable(callee) and callee.qualname not in self.inline_stack:
+                bound = self._bind(callee, t)
+                if bound is not None:
+                    self.inline_stack.append(callee.qualname)
+                    try:
+                        cs = self.owner.summary(callee)
+                    finally:
+                        self.inline_stack.pop()
+                    if len(cs.paths) == 1 and cs.paths[0].out is not None and cs.paths[0].out[0] == "return" and all(ev.kind == "bind" for ev in cs.paths[0].events):
+                        from .terms import substitute
+
+                        return self.inline_terms(substitute(cs.paths[0].out[1], {("param", k): v for k, v in bound.items()}), depth + 1)
+        return t
 
     def syntactic_terms(self, body: list[ast.stmt]) -> dict[int, tuple]:
         """line -> terms evaluated *by that statement itself* (locals opaque, no copy propagation).
@@ -314,7 +478,7 @@ class _Builder:
         return m(st, p)
 
     def ex(self, e, p: Path) -> tuple:
-        return self.low.expr(e, p.env)
+        return self.inline_terms(self.low.expr(e, p.env))
 
     # ------------------------------------------------------------------ simple statements
     def s_Pass(self, st, p):
@@ -356,12 +520,31 @@ class _Builder:
         t = self.ex(v, p)
         if op(t) in ("yield", "yieldfrom"):
             p.events.append(self.E("yield", st.lineno, t[1]))
-        else:
-            p.events.append(self.E("expr", st.lineno, t))
+            return [p]
+        inl = self.inline_call(t, p, st.lineno) if op(t) == "call" else None
+        if inl is not None:
+            return [q for q, _ in inl]
+        p.events.append(self.E("expr", st.lineno, t))
         return [p]
 
     def s_Return(self, st, p):
-        p.out = ("return", self.ex(st.value, p) if st.value is not None else NONE, st.lineno, self.cov)
+        if isinstance(st.value, ast.IfExp):
+            # `return a if c else b`  ==  `if c: return a` / `else: return b`
+            synth = ast.If(test=st.value.test, body=[ast.Return(value=st.value.body)], orelse=[ast.Return(value=st.value.orelse)])
+            ast.copy_location(synth, st)
+            for sub in (synth.body[0], synth.orelse[0]):
+                ast.copy_location(sub, st)
+            return self.s_If(synth, p)
+        t = self.ex(st.value, p) if st.value is not None else NONE
+        inl = self.inline_call(t, p, st.lineno) if op(t) == "call" else None
+        if inl is not None:
+            out = []
+            for q, val in inl:
+                if val is not None and q.out is None:
+                    q.out = ("return", val, st.lineno, self.cov)
+                out.append(q)
+            return out
+        p.out = ("return", t, st.lineno, self.cov)
         return [p]
 
     def s_Raise(self, st, p):
@@ -410,10 +593,51 @@ class _Builder:
             self.assign(target.value, value, p, line)
 
     def s_Assign(self, st, p):
-        v = self._new_or(st.value, self.ex(st.value, p), st.lineno)
+        if isinstance(st.value, ast.IfExp) and len(st.targets) == 1 and isinstance(st.targets[0], ast.Name):
+            # `x = a if c else b`  ==  `if c: x = a` / `else: x = b`  (keeps terms free of conditionals)
+            mk = lambda v: ast.copy_location(ast.Assign(targets=st.targets, value=v), st)  # noqa: E731
+            synth = ast.copy_location(ast.If(test=st.value.test, body=[mk(st.value.body)], orelse=[mk(st.value.orelse)]), st)
+            return self.s_If(synth, p)
+        raw = self.ex(st.value, p)
+        inl = self.inline_call(raw, p, st.lineno) if op(raw) == "call" else None
+        if inl is not None:
+            out = []
+            for q, val in inl:
+                if val is not None and q.out is None:
+                    v = self._new_or(st.value, val, st.lineno)
+                    for t in st.targets:
+                        self.assign(t, v, q, st.lineno)
+                out.append(q)
+            return out
+        des = self._desugar_comp(st, raw, p)
+        if des is not None:
+            return des
+        v = self._new_or(st.value, raw, st.lineno)
         for t in st.targets:
             self.assign(t, v, p, st.lineno)
         return [p]
+
+    def _desugar_comp(self, st, raw, p):
+        """`xs = [helper(x) for x in it]` with a multi-path unknown helper -> explicit loop + append."""
+        v = st.value
+        if not (isinstance(v, ast.ListComp) and len(v.generators) == 1 and not v.generators[0].ifs and isinstance(v.elt, ast.Call)):
+            return None
+        if len(st.targets) != 1 or not isinstance(st.targets[0], ast.Name):
+            return None
+        if op(raw) != "comp" or op(raw[2]) != "call":
+            return None
+        callee = self.resolve_callee(raw[2])
+        if callee is None or self.owner is None or not self.owner.inlinable(callee):
+            return None
+        name = st.targets[0].id
+        init = ast.Assign(targets=[ast.Name(id=name, ctx=ast.Store())], value=ast.List(elts=[], ctx=ast.Load()))
+        app = ast.Expr(value=ast.Call(func=ast.Attribute(value=ast.Name(id=name, ctx=ast.Load()), attr="append", ctx=ast.Load()), args=[ast.Name(id="__elt", ctx=ast.Load())], keywords=[]))
+        tmp = ast.Assign(targets=[ast.Name(id="__elt", ctx=ast.Store())], value=v.elt)
+        loop = ast.For(target=v.generators[0].target, iter=v.generators[0].iter, body=[tmp, app], orelse=[])
+        for n in (init, loop, tmp, app):
+            ast.copy_location(n, st)
+            ast.fix_missing_locations(n)
+        return self.block([init, loop], [p])
 
     def s_AnnAssign(self, st, p):
         if st.value is None:
@@ -434,6 +658,12 @@ class _Builder:
         nested = self.fn.nested.get(st.name)
         q = nested.qualname if nested is not None else f"{self.fn.qualname}.{st.name}"
         p.env[st.name] = ("closure", q)
+        body = [x for x in st.body if not (isinstance(x, ast.Expr) and isinstance(x.value, ast.Constant))]
+        if q not in KNOWN_FUNCTIONS and not st.decorator_list and len(body) == 1 and isinstance(body[0], ast.Return) and body[0].value is not None and not st.args.vararg and not st.args.kwarg and not st.args.defaults:
+            # a local one-expression function is the same value as the equivalent lambda
+            lam = ast.Lambda(args=st.args, body=body[0].value)
+            ast.copy_location(lam, st)
+            p.env[st.name] = self.low.expr(lam, p.env)
         decos = [self.ex(d, p) for d in st.decorator_list]
         p.events.append(self.E("def", st.lineno, ("closure", q), tuple(decos)))
         return [p]
@@ -449,12 +679,36 @@ class _Builder:
         test = self.ex(st.test, p)
         if is_const(test) and isinstance(test[1], bool):
             return self.block(st.body if test[1] else st.orelse, [p])
-        a, b = p, p.fork()
         pol = True
         while op(test) in ("not", "truth"):
             if op(test) == "not":
                 pol = not pol
             test = test[1]
+        # a test that is a call of a multi-path helper unknown to the rules: run the helper in place
+        inl = self.inline_call(test, p, st.lineno) if op(test) == "call" else None
+        if inl is not None:
+            out: list[Path] = []
+            for q, val in inl:
+                if val is None:  # the helper raised
+                    out.append(q)
+                    continue
+                out.extend(self._branch(st, q, val, pol))
+            return out
+        return self._branch(st, p, test, pol)
+
+    def _branch(self, st, p, test, pol):
+        while op(test) in ("not", "truth"):
+            if op(test) == "not":
+                pol = not pol
+            test = test[1]
+        if is_const(test) and isinstance(test[1], bool):
+            return self.block(st.body if (test[1] == pol) else st.orelse, [p])
+        # canonical guards: comparisons carry a positive operator, the polarity carries the negation
+        neg = {"is not": "is", "!=": "==", "not in": "in"}
+        if op(test) == "cmp" and test[1] in neg:
+            test = ("cmp", neg[test[1]], test[2], test[3])
+            pol = not pol
+        a, b = p, p.fork()
         a.events.append(self.E("guard", st.lineno, test, pol))
         b.events.append(self.E("guard", st.lineno, test, not pol))
         return self.block(st.body, [a]) + self.block(st.orelse, [b])
@@ -469,6 +723,25 @@ class _Builder:
 
     def s_For(self, st, p):
         it = self.ex(st.iter, p)
+        if op(it) in ("tuple", "list") and 0 < len(it[1]) <= 8 and not any(op(x) == "star" for x in it[1]) and not st.orelse:
+            # a loop over a literal display is unrolled: one copy of the body per element
+            paths = [p]
+            for elt in it[1]:
+                nxt: list[Path] = []
+                for q in paths:
+                    if q.out is not None:
+                        nxt.append(q)
+                        continue
+                    self.low.bind_target(st.target, q.env, elt)
+                    for r in self.block(st.body, [q]):
+                        if r.out == ("continue",):
+                            r.out = None
+                        nxt.append(r)
+                paths = nxt
+            for q in paths:
+                if q.out == ("break",):
+                    q.out = None
+            return paths
         loop_id = self.low.fresh()
         assigned = self._assigned_names(st.body) | self._assigned_names([ast.Expr(st.target)] if False else [])
         env = dict(p.env)
